@@ -1700,6 +1700,17 @@ class Run:
         return False
 
     def op_close(self, a1, a2):
+        if self.cfg.get("close_midtxn") and a2 % 2 and not (self.session.new or self.session.dirty or self.session.deleted):
+            # close() in the middle of a transaction that has flushed work (inserts, updates, deletes): the transaction is rolled back
+            # and every object leaves the session (the application lets go of all of them: their values are those of the lost
+            # transaction)
+            self.session.close()
+            for e in self.objs:
+                e["retired"] = True
+            self.new_session()
+            self.after_rollback()
+            self.bump("probe:closed_inside_transaction")
+            return "close midtxn"
         if self.session.new or self.session.dirty or self.session.deleted or self.txn_flushed or self.sp_stack or any(
                 OS.state_of(e["obj"]) == "deleted" for e in self.entries()):
             return "skip"      # closing with work in flight is a rollback (detached objects would keep the rolled-back values);
